@@ -52,11 +52,16 @@ func (g *Generator) generateMethodFunction(obj *tlparser.Method) jen.Code {
 		resp = jen.Index().Add(resp)
 	}
 
-	// еще одно злоебучее исключение. проблема в том, что bool это вот как бы и объект, да вот как бы и нет
-	// трабла только в том, что нельзя просто так взять, и получить bool из MakeRequest. так что
-	// возвращаем tl.Bool
-	if obj.Response.Type == "Bool" {
-		resp = jen.Op("*").Qual(tlPackagePath, "PseudoBool")
+	// MakeRequest unwraps Bool into the native bool (see tl.UnwrapNativeTypes), so the method returns
+	// bool as well. The value returned beside an error must fit the result type: nil suits pointers,
+	// interfaces and slices, but not bool and not enums (which are uint32).
+	errorResult := jen.Nil()
+	if !obj.Response.IsList {
+		if obj.Response.Type == "Bool" {
+			errorResult = jen.False()
+		} else if _, isEnum := g.schema.Enums[obj.Response.Type]; isEnum {
+			errorResult = jen.Lit(0)
+		}
 	}
 
 	responses := []jen.Code{resp, jen.Error()}
@@ -75,7 +80,7 @@ func (g *Generator) generateMethodFunction(obj *tlparser.Method) jen.Code {
 	method := jen.Func().Params(jen.Id("c").Op("*").Id("Client")).Id(goify(obj.Name, true)).Params(g.generateArgumentsForMethod(obj)...).Params(responses...).Block(
 		jen.List(jen.Id("responseData"), jen.Id("err")).Op(":=").Id("c").Dot("MakeRequest").Call(g.generateMethodArgumentForMakingRequest(obj)),
 		jen.If(jen.Err().Op("!=").Nil()).Block(
-			jen.Return(jen.Nil(), jen.Qual(errorsPackagePath, "Wrap").Call(jen.Err(), jen.Lit("sending "+goify(obj.Name, true)))),
+			jen.Return(errorResult, jen.Qual(errorsPackagePath, "Wrap").Call(jen.Err(), jen.Lit("sending "+goify(obj.Name, true)))),
 		),
 		jen.Line(),
 		jen.List(jen.Id("resp"), jen.Id("ok")).Op(":=").Id("responseData").Assert(resp),
